@@ -160,6 +160,8 @@ class FnChecker:
                     max_mult = max(max_mult, st.count(s))
                 if any(s.type.is_refcounted for s in st):
                     kind = self.opname(op)
+                    if type(op).__name__ == "PrimitiveOp":
+                        kind += ":" + str(getattr(getattr(op, "desc", None), "name", "?"))
                     self.steal_kinds[kind] = self.steal_kinds.get(kind, 0) + 1
                     if any(st.count(s) > 1 and s.type.is_refcounted for s in st):
                         self.multi_steal_ops += 1
